@@ -15,3 +15,27 @@ Theorem C08_len_is_row_count : forall c h,
   snd (op_len (run c init_st h)) = RInt (Z.of_nat (length (rows (run c init_st h)))).
 Proof. exact len_reports_rows. Qed.
 Print Assumptions C08_len_is_row_count.
+
+From DC Require Import Refs SinvFacts.
+
+(* the file clause: in every state satisfying the invariant (every history from the empty cache), the value
+   files are exactly the files the rows refer to, each of the recorded size; rows without a file have size 0;
+   the reported size is the total size of the value files and the reported length the number of rows *)
+Theorem C08_files_agree : forall s, Sinv s ->
+  (forall id, In id (map fst (fs s)) <-> In id (refs s)) /\
+  Permutation.Permutation (map fst (fs s)) (refs s) /\
+  (forall r id, In r (rows s) -> rfile r = Some id -> exists c, fs_get (fs s) id = Some c /\ fsize c = rsize r) /\
+  (forall r, In r (rows s) -> rfile r = None -> rsize r = 0) /\
+  n_size s = sumZ (map (fun p => fsize (snd p)) (fs s)) /\
+  n_count s = Z.of_nat (length (rows s)).
+Proof. exact files_agree. Qed.
+Print Assumptions C08_files_agree.
+
+Theorem C08_invariant_histories : forall c h s, Sinv s -> hist_ok c s h -> Sinv (run c s h).
+Proof. exact sinv_run. Qed.
+Print Assumptions C08_invariant_histories.
+
+Theorem C08_invariant_from_empty : forall c h,
+  (forall x, In x h -> is_push (fst (fst x)) = false) -> Sinv (run c init_st h).
+Proof. exact sinv_run_nopush. Qed.
+Print Assumptions C08_invariant_from_empty.
